@@ -54,16 +54,66 @@ Proof.
   - exists []. split; [reflexivity|]. intros [|k] Hk; [lia|reflexivity].
   - cbn [lv_inr] in H. destruct v as [| | |items]; try discriminate.
     destruct items as [|[l| | |] [|[|b| |] [|? ?]]]; try discriminate.
-    rewrite !andb_true_iff in H. destruct H as [[[Hl Hr] Hb] Hvs].
-    apply Z.eqb_eq in Hl. destruct (IH Hvs) as [rb [Hs Hp]].
-    exists (le_encode 2 l ++ b ++ rb). split.
-    + cbn [lv_ser]. rewrite Hr, Hs. reflexivity.
-    + intros fuel Hf. destruct fuel as [|k]; [lia|].
-      pose proof Hr as Hr'. apply u_range_iff in Hr'.
-      pose proof (le_decode_encode 2 l Hr') as D. cbn [le_encode] in *. cbn [app lv_parse].
-      rewrite D. rewrite Hl. unfold lenZ. rewrite Nat2Z.id. rewrite skipn_app_exact, firstn_app_exact.
-      rewrite Hp; [reflexivity|]. cbn [app length] in Hf. rewrite !app_length in Hf. lia.
+    rewrite !andb_true_iff in H. destruct H as [[Hr Hb] Hrest].
+    pose proof Hr as Hr'. apply u_range_iff in Hr'.
+    pose proof (le_decode_encode 2 l Hr') as D. cbn [le_encode] in D.
+    destruct vs as [|v2 vs2].
+    + (* the last tuple: the value may be shorter than its Length *)
+      apply Z.leb_le in Hrest.
+      exists (le_encode 2 l ++ b ++ []). split; [cbn [lv_ser]; rewrite Hr; reflexivity|].
+      intros fuel Hf. destruct fuel as [|k]; [lia|]. rewrite app_nil_r. cbn [le_encode app lv_parse].
+      rewrite D.
+      assert (Hge : (length b <= Z.to_nat l)%nat) by (unfold lenZ in Hrest; lia).
+      rewrite firstn_all2 by exact Hge. rewrite skipn_all2 by exact Hge.
+      destruct k as [|k']; [cbn [length app le_encode] in Hf; lia|]. reflexivity.
+    + apply andb_true_iff in Hrest as [Hl Hvs]. apply Z.eqb_eq in Hl.
+      destruct (IH Hvs) as [rb [Hs Hp]].
+      exists (le_encode 2 l ++ b ++ rb). split.
+      * cbn [lv_ser]. rewrite Hr. cbn [lv_ser] in Hs. rewrite Hs. reflexivity.
+      * intros fuel Hf. destruct fuel as [|k]; [lia|]. cbn [le_encode app lv_parse].
+        rewrite D. rewrite Hl. unfold lenZ. rewrite Nat2Z.id. rewrite skipn_app_exact, firstn_app_exact.
+        rewrite Hp; [reflexivity|]. cbn [le_encode app length] in Hf. rewrite !app_length in Hf. lia.
 Qed.
+
+(* bytes -> tuples -> bytes: whatever the parser accepted is written back exactly, because every
+   tuple keeps the Length it was read with *)
+Lemma lv_parse_ser : forall fuel b vs, bytes_ok b = true -> lv_parse fuel b = Some vs ->
+  lv_ser vs = Some b /\ lv_inr vs = true.
+Proof.
+  induction fuel as [|k IH]; intros b vs Hok H; [discriminate|].
+  destruct b as [|x [|y r]].
+  - cbn in H. apply some_inv in H. subst. split; reflexivity.
+  - discriminate.
+  - cbn [lv_parse] in H.
+    destruct (lv_parse k (skipn (Z.to_nat (le_decode [x; y])) r)) as [rest|] eqn:E; [|discriminate].
+    apply some_inv in H. subst vs.
+    rewrite !bytes_ok_cons in Hok. rewrite !andb_true_iff in Hok. destruct Hok as [Hx [Hy Hr]].
+    assert (Hxy : bytes_ok [x; y] = true) by (cbn; rewrite Hx, Hy; reflexivity).
+    pose proof (le_decode_range _ Hxy) as R. cbn [length] in R.
+    destruct (IH _ rest (bytes_ok_skipn _ _ Hr) E) as [Hs Hi].
+    set (l := le_decode [x; y]) in *.
+    assert (Hu : u_range 2 l = true) by (apply u_range_iff; exact R).
+    split.
+    + cbn [lv_ser]. rewrite Hu, Hs. subst l. rewrite (le_encode_decode_n 2 [x; y] eq_refl Hxy).
+      cbn [app]. rewrite firstn_skipn. reflexivity.
+    + cbn [lv_inr]. rewrite Hu. rewrite (bytes_ok_firstn _ _ Hr). cbn [andb].
+      destruct rest as [|v2 rest2] eqn:Er.
+      * apply Z.leb_le. unfold lenZ. rewrite firstn_length. lia.
+      * rewrite Hi, andb_true_r. apply Z.eqb_eq.
+        (* a further tuple was parsed, so the data did not end inside this value *)
+        destruct (Nat.le_gt_cases (Z.to_nat l) (length r)) as [Hle|Hgt].
+        -- unfold lenZ. rewrite firstn_length_le by exact Hle. lia.
+        -- exfalso. rewrite skipn_all2 in E by lia. destruct k; cbn in E; discriminate.
+Qed.
+
+Lemma lv_value_roundtrip : forall vs, lv_inr vs = true ->
+  exists b, lv_ser vs = Some b /\ lv_parse (S (length b)) b = Some vs.
+Proof. intros vs H. destruct (lv_roundtrip vs H) as [b [Hs Hp]]. exists b. split; [exact Hs|apply Hp; lia]. Qed.
+Lemma lv_bytes_roundtrip : forall b vs, bytes_ok b = true -> lv_parse (S (length b)) b = Some vs ->
+  lv_ser vs = Some b /\ lv_inr vs = true.
+Proof. intros b vs. apply lv_parse_ser. Qed.
+Lemma lv_derived_refuted : exists vs, lv_inr vs = true /\ lv_ser_derived vs <> lv_ser vs.
+Proof. exists [VList [VInt 30; VBytes [1; 2; 3]]]. split; [reflexivity|]. vm_compute. discriminate. Qed.
 
 Lemma epi_list_roundtrip : forall vs, epi_list_inr vs = true ->
   exists b, epi_list_ser vs = Some b /\ epi_list_parse b = vs.
